@@ -337,10 +337,17 @@ func (g *gen) tmap(depth int) *V {
 			if kk == nestedKey {
 				inner := g.leafMap(true, 1+g.r.Intn(2))
 				ptr := fmt.Sprintf("/%s/k7/k%d", nestedKey, 1+g.r.Intn(2))
-				if g.r.Chance(1, 4) {
+				if g.r.Chance(1, 2) {
+					// deeper still: one to three further maps on the way
+					tail := g.leafMap(true, 2)
+					ptr = fmt.Sprintf("/k%d", 1+g.r.Intn(3))
+					for d := g.r.Intn(3); d >= 0; d-- {
+						tail = &V{K: "map", Iface: true, Keys: []string{"k3", "k8"}, Vals: []*V{tail, {K: "str", C: g.can()}}}
+						ptr = "/k3" + ptr
+					}
 					inner.Keys = append(inner.Keys, "k3")
-					inner.Vals = append(inner.Vals, g.leafMap(true, 2))
-					ptr = fmt.Sprintf("/%s/k7/k3/k%d", nestedKey, 1+g.r.Intn(3))
+					inner.Vals = append(inner.Vals, tail.Vals[0])
+					ptr = fmt.Sprintf("/%s/k7", nestedKey) + ptr
 				}
 				v.Vals[j].Keys = append(v.Vals[j].Keys, "k7")
 				v.Vals[j].Vals = append(v.Vals[j].Vals, inner)
